@@ -141,6 +141,30 @@ func c06Catalogue(proc string, vpn bool) []c06Frame {
 			f[16], f[17] = byte(pt>>8), byte(pt)
 			add(c06Frame{f, fmt.Sprintf("arp-ptype%#x", pt)})
 		}
+		// address sizes that keep the total ARP length at 28 bytes
+		for _, hp := range [][2]int{{4, 6}, {5, 5}, {0, 10}, {10, 0}, {8, 2}, {7, 3}, {2, 8}} {
+			a := &pktcodec.ARP{HType: 1, PType: pktcodec.EtherTypeIPv4, HLen: uint8(hp[0]), PLen: uint8(hp[1]), Op: 2,
+				SHA: []byte{0x00, 0x50, 0x56, 0xaa, 0xbb, 0xcc, 0xdd, 0xee, 0xf0, 0x0d}[:hp[0]], SPA: []byte{10, 0, 0, 77, 1, 2, 3, 4, 5, 6}[:hp[1]], THA: make([]byte, hp[0]), TPA: make([]byte, hp[1])}
+			add(c06Frame{append(pktcodec.EthHeader(c06OurM, c06PeerM, pktcodec.EtherTypeARP), pktcodec.EncodeARP(a)...), fmt.Sprintf("arp-hlen%d-plen%d", hp[0], hp[1])})
+		}
+		// other ethertypes in front of an ARP body / an inner Ethernet frame (transparent bridging)
+		for _, et := range []uint16{0x0800, 0x86dd, 0x8100, 0x88a8, 0x8035, 0x05dc, 0xffff} {
+			f := append([]byte{}, base...)
+			f[12], f[13] = byte(et>>8), byte(et)
+			add(c06Frame{f, fmt.Sprintf("ethertype=%#04x+arp-body", et)})
+		}
+		for _, inner := range []string{"arp", "eth-only", "ipv4"} {
+			f := pktcodec.EthHeader(c06OurM, c06PeerM, 0x6558)
+			switch inner {
+			case "arp":
+				f = append(f, c06Valid("arp", false, 9).data...)
+			case "eth-only":
+				f = append(f, pktcodec.EthHeader(c06OurM, c06PeerM, 0x9999)...)
+			default:
+				f = append(f, c06Valid("icmp", false, 9).data...)
+			}
+			add(c06Frame{f, "eth-in-eth-" + inner})
+		}
 	} else {
 		valid := c06Valid(own, vpn, 2).data // has IP options? v=2: no
 		validOpt := c06Valid(own, vpn, 1).data
@@ -211,6 +235,20 @@ func c06Catalogue(proc string, vpn bool) []c06Frame {
 			for _, et := range []uint16{0x86dd, 0x8100, 0x88a8, 0x0000, 0x05dc, 0x0801, 0xffff, pktcodec.EtherTypeARP} {
 				et := et
 				mut(fmt.Sprintf("ethertype=%#04x", et), func(b []byte) { b[12], b[13] = byte(et>>8), byte(et) })
+			}
+		}
+		if !vpn {
+			for _, inner := range []string{"own", "eth-only", "arp"} {
+				f := pktcodec.EthHeader(c06OurM, c06PeerM, 0x6558)
+				switch inner {
+				case "own":
+					f = append(f, c06Valid(own, false, 9).data...)
+				case "eth-only":
+					f = append(f, pktcodec.EthHeader(c06OurM, c06PeerM, 0x9999)...)
+				default:
+					f = append(f, c06Valid("arp", false, 9).data...)
+				}
+				add(c06Frame{f, "eth-in-eth-" + inner})
 			}
 		}
 		// IP-in-IP: the outer datagram carries another datagram, nested 1..3 deep, inner transport
@@ -386,7 +424,24 @@ func runC06(t *testing.T, c simrt.Chooser, o Opts) *Out {
 					d[p.n("flippos", len(d))] ^= byte(1 << p.n("flipbit", 8))
 				}
 				f = c06Frame{d, b.tag + "+flips"}
-			case 8: // random bytes
+			case 8: // random bytes, or (ARP) random address sizes with a body of matching or non-matching length
+				if m.proc == "arp" && p.bool("arpsizes") {
+					hl, pl := p.n("rhlen", 12), p.n("rplen", 12)
+					a := &pktcodec.ARP{HType: 1, PType: pktcodec.EtherTypeIPv4, HLen: uint8(hl), PLen: uint8(pl), Op: uint16(1 + p.n("rop", 2)),
+						SHA: make([]byte, hl), SPA: make([]byte, pl), THA: make([]byte, hl), TPA: make([]byte, pl)}
+					for k := range a.SHA {
+						a.SHA[k] = byte(p.n("rsha", 256))
+					}
+					for k := range a.SPA {
+						a.SPA[k] = byte(p.n("rspa", 256))
+					}
+					fr := append(pktcodec.EthHeader(c06OurM, c06PeerM, pktcodec.EtherTypeARP), pktcodec.EncodeARP(a)...)
+					if p.bool("rpad") {
+						fr = append(fr, make([]byte, p.n("rpadn", 20))...)
+					}
+					f = c06Frame{fr, fmt.Sprintf("arp-random-hlen%d-plen%d", hl, pl)}
+					break
+				}
 				d := make([]byte, p.n("rlen", 120))
 				for k := range d {
 					d[k] = byte(p.n("rb", 256))
